@@ -25,10 +25,13 @@ def tla_chars(text):
     return '<<' + ', '.join(tla_string(c) for c in text) + '>>'
 
 
-def gen_module(sigma, pieces=None, prefix=''):
+def gen_module(sigma, pieces=None, prefix='', first=None):
     """The character set goes into a generated module: TLC's cfg parser does not unescape \\" and \\\\ in strings."""
-    return ('---- MODULE MC_LexGen ----\nEXTENDS MC_Lex\nGenSigma == {%s}\nGenPieces == {%s}\nGenPrefix == %s\n====\n'
-            % (', '.join(tla_string(c) for c in sorted(sigma)), ', '.join(tla_chars(p) for p in sorted(pieces or [])), tla_chars(prefix)))
+    if first is None:
+        first = [''] + sorted(set(sigma) | {p[0] for p in (pieces or [])})
+    return ('---- MODULE MC_LexGen ----\nEXTENDS MC_Lex\nGenSigma == {%s}\nGenPieces == {%s}\nGenPrefix == %s\nGenFirst == {%s}\n====\n'
+            % (', '.join(tla_string(c) for c in sorted(sigma)), ', '.join(tla_chars(p) for p in sorted(pieces or [])), tla_chars(prefix),
+               ', '.join(tla_string(c) for c in first)))
 
 
 def make_cfg(sigma, maxlen, pieces=None, maxpieces=0, given=False, prop=False):
@@ -37,6 +40,7 @@ def make_cfg(sigma, maxlen, pieces=None, maxpieces=0, given=False, prop=False):
          'CONSTANT MaxLen = %d' % maxlen,
          'CONSTANT Pieces <- %s' % ('GenPieces' if pieces else 'NoPieces'),
          'CONSTANT Prefix <- GenPrefix',
+         'CONSTANT First <- GenFirst',
          'CONSTANT MaxPieces = %d' % maxpieces,
          'CONSTANT Given <- %s' % ('GivenFromFile' if given else 'NoGiven'),
          'CONSTANT Keywords = %s' % grammar._val(KEYWORDS),
@@ -68,9 +72,22 @@ def enumerate_texts(sigma, maxlen, pieces=None, maxpieces=0, cache=True, timeout
         with open(cpath) as f:
             d = json.load(f)
         return d['texts'], d['res']
-    res = tlc.run_model('MC_LexGen', cfg_text=cfg, workers=1, timeout=timeout, extra_files={'MC_LexGen.tla': gen})
-    texts = _collect(res)
-    r = dict(generated=res['generated'], distinct=res['distinct'], wall=res['wall'])
+    # one TLC process per group of first characters (each with -workers 1, so that its output stays line-clean)
+    from concurrent.futures import ThreadPoolExecutor
+    firsts = [''] + sorted(set(sigma) | {p[0] for p in (pieces or [])})
+    ngroups = min(len(firsts), max(1, tlc.jvm_slots()))
+    groups = [firsts[i::ngroups] for i in range(ngroups)]
+    texts, r = {}, dict(generated=0, distinct=0, wall=0.0)
+
+    def one(g):
+        gm = gen_module(sigma, pieces, prefix, first=g)
+        return tlc.run_model('MC_LexGen', cfg_text=cfg, workers=1, timeout=timeout, extra_files={'MC_LexGen.tla': gm}, heap='3g')
+    with ThreadPoolExecutor(max_workers=ngroups) as ex:
+        for res in ex.map(one, groups):
+            texts.update(_collect(res))
+            r['generated'] += res['generated']
+            r['distinct'] += res['distinct']
+            r['wall'] = max(r['wall'], res['wall'])
     if cache:
         with open(cpath, 'w') as f:
             json.dump({'texts': texts, 'res': r}, f)
